@@ -96,6 +96,29 @@ package posix
 //@   let declared = old(ite(po.ContentLength != nil, *po.ContentLength, 0))
 //@   at-call posix.Posix.openTmpFile {C06} [temp-file-sized-by-the-declared-length] requires $4 == declared
 //@   at-call posix.tmpfile.link {C06} [published-only-with-exactly-the-declared-bytes] requires po.Body != nil ==> result("io.Copy", 0) == declared
+// C06: every x-amz-checksum-* value the request supplies is verified over the bytes read — for a file object and for a
+// directory object alike: each supplied value gets a hashing reader of its own algorithm with that value, stacked on the
+// chain, and the body is read from the top of that chain
+//@   let supplied = po.ChecksumCRC32 != nil || po.ChecksumCRC32C != nil || po.ChecksumSHA1 != nil || po.ChecksumSHA256 != nil || po.ChecksumCRC64NVME != nil
+//@   loop 1 invariant {C06} [bounds] -1 <= rangeindex && rangeindex < len(hashConfigs)
+//@   loop 1 invariant {C06} [the-table-lists-the-five-supplied-values] len(hashConfigs) == 5 \
+//@        && hashConfigs[0].value == po.ChecksumCRC32 && hashConfigs[0].hashType == utils.HashTypeCRC32 \
+//@        && hashConfigs[1].value == po.ChecksumCRC32C && hashConfigs[1].hashType == utils.HashTypeCRC32C \
+//@        && hashConfigs[2].value == po.ChecksumSHA1 && hashConfigs[2].hashType == utils.HashTypeSha1 \
+//@        && hashConfigs[3].value == po.ChecksumSHA256 && hashConfigs[3].hashType == utils.HashTypeSha256 \
+//@        && hashConfigs[4].value == po.ChecksumCRC64NVME && hashConfigs[4].hashType == utils.HashTypeCRC64NVME
+//@   loop 1 invariant {C06} [a-supplied-checksum-has-its-reader] forall j int :: 0 <= j && j <= rangeindex && hashConfigs[j].value != nil ==> hashRdr != nil
+//@   loop 1 invariant {C06} [the-chain-ends-in-the-last-reader] hashRdr != nil ==> rdr == iface(hashRdr)
+//@   at-call utils.NewHashReader {C06} [stacked-on-the-chain-with-the-supplied-value] requires $0 == rdr && (\
+//@        ($2 == utils.HashTypeCRC32 && po.ChecksumCRC32 != nil && $1 == *po.ChecksumCRC32) || \
+//@        ($2 == utils.HashTypeCRC32C && po.ChecksumCRC32C != nil && $1 == *po.ChecksumCRC32C) || \
+//@        ($2 == utils.HashTypeSha1 && po.ChecksumSHA1 != nil && $1 == *po.ChecksumSHA1) || \
+//@        ($2 == utils.HashTypeSha256 && po.ChecksumSHA256 != nil && $1 == *po.ChecksumSHA256) || \
+//@        ($2 == utils.HashTypeCRC64NVME && po.ChecksumCRC64NVME != nil && $1 == *po.ChecksumCRC64NVME) || \
+//@        ($1 == "" && !supplied))
+//@   at-call io.Copy {C06} [every-supplied-checksum-is-verified-over-the-bytes-read] requires supplied ==> hashRdr != nil && $1 == iface(hashRdr)
+// a directory object is made only when exactly the declared number of bytes (none) arrived
+//@   at-call backend.MkdirAll {C06} [a-directory-is-made-only-with-exactly-the-declared-bytes] when strings.HasSuffix(*po.Key, "/") :: requires po.Body != nil ==> result("io.Copy", 0) == declared
 //@ func (*Posix) UploadPart
 //@   let bodyRead = called("io.Copy") && result("io.Copy", 1) == nil
 //@   let declared = old(ite(input.ContentLength != nil, *input.ContentLength, 0))
